@@ -349,7 +349,23 @@ impl Tracer {
                 *this = Self::Tuple(tracer);
             }
             // TODO: check fields are equal
-            Self::Tuple(_tracer) => {}
+            Self::Tuple(tracer) => {
+                // tuples of different lengths at one position: the fields missing in the
+                // shorter tuples are nullable
+                for field in tracer.field_tracers.iter_mut().skip(num_fields) {
+                    field.mark_nullable();
+                }
+                while tracer.field_tracers.len() < num_fields {
+                    let idx = tracer.field_tracers.len();
+                    let mut field = Tracer::new(
+                        idx.to_string(),
+                        format!("{}.{}", tracer.path, idx),
+                        tracer.options.clone(),
+                    );
+                    field.mark_nullable();
+                    tracer.field_tracers.push(field);
+                }
+            }
             _ => fail!(
                 "Mismatched types, previous {:?}, current struct",
                 self.get_type()
